@@ -21,20 +21,21 @@ import "io"
 func peek(r io.Reader, n int) ([]byte, io.Reader, error) {
 	buf := make([]byte, n)
 
-	if r, ok := r.(io.ReadSeeker); ok {
-		pos, err := r.Seek(0, io.SeekCurrent)
-		if err != nil {
-			return nil, nil, err
+	if rs, ok := r.(io.ReadSeeker); ok {
+		// Not everything with a Seek method can seek (an *os.File may be a
+		// pipe): if the position cannot be queried, nothing has been consumed
+		// yet and the input is read through the buffering reader below.
+		if pos, err := rs.Seek(0, io.SeekCurrent); err == nil {
+			k, err := io.ReadFull(rs, buf)
+			if err != nil && err != io.ErrUnexpectedEOF && err != io.EOF {
+				return nil, nil, err
+			}
+			_, err = rs.Seek(pos, io.SeekStart)
+			if err != nil {
+				return nil, nil, err
+			}
+			return buf[:k], rs, nil
 		}
-		k, err := io.ReadFull(r, buf)
-		if err != nil && err != io.ErrUnexpectedEOF && err != io.EOF {
-			return nil, nil, err
-		}
-		_, err = r.Seek(pos, io.SeekStart)
-		if err != nil {
-			return nil, nil, err
-		}
-		return buf[:k], r, nil
 	}
 
 	k, err := io.ReadFull(r, buf)
